@@ -20,12 +20,12 @@ func init() {
 
 // container: a struct with fields data (map), order (slice), mx (sync.RWMutex).
 type container struct {
-	named              *types.Named
-	pk                 *packagesPackage
-	data, order, mx    int // field indices
-	methods            []*ssa.Function
-	decls              map[string]*core.DeclSite
-	name               string
+	named           *types.Named
+	pk              *packagesPackage
+	data, order, mx int // field indices
+	methods         []*ssa.Function
+	decls           map[string]*core.DeclSite
+	name            string
 }
 
 func containers(c *core.Ctx, rule string) []*container {
@@ -281,9 +281,9 @@ func c19set(c *core.Ctx) {
 				}
 				// membership tests on the same key in this function
 				type test struct {
-					blk      *ssa.BasicBlock
-					present  *ssa.BasicBlock // successor when key present
-					absent   *ssa.BasicBlock
+					blk     *ssa.BasicBlock
+					present *ssa.BasicBlock // successor when key present
+					absent  *ssa.BasicBlock
 				}
 				var tests []test
 				for _, b := range f.Blocks {
